@@ -2,7 +2,7 @@
 from vf.driver import contract_units
 
 LEVEL = "other"
-MODULES = ["contracts.c_access", "contracts.c_engine", "contracts.c_request", "contracts.c_attributes",
+MODULES = ["contracts.c_secretfactory", "contracts.c_access", "contracts.c_engine", "contracts.c_request", "contracts.c_attributes",
            "contracts.c_factory", "contracts.c_sqltypes"]
 EXPLANATION = ("The engine-side hops are under contract: the conversion of a registered core secret into the "
                "stored object carries value bytes, algorithm, length, key format and the type-specific field "
@@ -11,20 +11,23 @@ EXPLANATION = ("The engine-side hops are under contract: the conversion of a reg
                "changed) and never writes to the store; the attribute reader behind GetAttributes / "
                "GetAttributeList reports an attribute only if the request's version supports it and it applies; "
                "enumeration columns survive the database type decorator (EnumType lemma over its two real "
-               "methods, every column enumeration and None).  NOT decided here: SQLAlchemy/SQLite storing and "
-               "returning column values unchanged (assumed), the key-wrapping-data accessor pair of pie keys, the "
-               "pie -> core direction inside SecretFactory, the client library hops (C19) and the wire (C01).")
+               "methods, every column enumeration and None); the key-wrapping-data accessor pair of pie keys keeps every "
+               "leaf (lemma); SecretFactory.create - the last step of Get - is proved to build, for every dictionary "
+               "shape _build_core_object produces, a secret of the right class whose every field is the dictionary's "
+               "entry, raising nothing (lemmas over the real factory and core constructors); CreateKeyPair never lets "
+               "the common template override a key-specific attribute.  NOT decided here: SQLAlchemy/SQLite storing "
+               "and returning column values unchanged (assumed), the client library hops (C19) and the wire (C01).")
 ASSUMPTIONS = ["SQLAlchemy stores and returns column values unchanged except through the two type decorators; "
                "column defaults apply; SQLite durability across restarts",
-               "SecretFactory.create builds the core secret from exactly the given value dictionary",
-               "key wrapping data of registered keys is outside the contracts (None in the conversion contract; "
-               "an uninterpreted per-object value in Get)"]
+               "the wrapping data a stored key returns from its accessor is handed to SecretFactory unchanged "
+               "(an uninterpreted per-object value in the Get handler contract; accessor and factory each proved "
+               "separately)"]
 
 
 def OBLIGATION_FILTER(name):
     keep = ('trace.returns-what', 'trace.get-never-writes', 'trace.stored-fields', 'trace.attribute-reported',
             'post.column-value', 'bounded:', 'raises.', 'trace.reads-only', '/exploration', '/fragment', '/extract',
-            'trace.new-rows-only', 'post.')
+            'trace.new-rows-only', 'trace.key-specific', 'post.')
     return any(k in name for k in keep)
 
 
